@@ -42,3 +42,5 @@ open GffProofs.C16Db
 #print axioms GffProofs.Gen.overlap_start_threshold_eq
 #print axioms GffProofs.Gen.overlap_any_threshold_eq
 #print axioms GffProofs.Gen.defaultCriteria_eq
+#print axioms GffProofs.Gen.merge_union_translated
+#print axioms GffProofs.Gen.merge_partition_translated
